@@ -2,6 +2,7 @@ package harness
 
 import (
 	"bufio"
+	"context"
 	neturl "net/url"
 	"fmt"
 	"net"
@@ -9,6 +10,7 @@ import (
 	"time"
 
 	"github.com/f1bonacc1/process-compose/src/api"
+	"github.com/f1bonacc1/process-compose/src/client"
 	"github.com/gorilla/websocket"
 
 	"verifrt/simlog"
@@ -56,6 +58,10 @@ func (rc *runCtx) runWSFollower(f *WSFollower) {
 	capacity := f.BufBytes
 	if capacity <= 0 {
 		capacity = 4096
+	}
+	if f.Mode == "lib" {
+		rc.runWSLib(f, capacity)
+		return
 	}
 	cl, sv := simnet.Pipe(capacity)
 	simsync.GoNamed("ws-server:"+f.Name, func() {
@@ -105,5 +111,47 @@ func (rc *runCtx) runWSFollower(f *WSFollower) {
 		}
 		simlog.Add(simlog.Event{Kind: "ws.line", Subj: f.Name, A: msg.Message, B: msg.ProcessName, N: n})
 		n++
+	}
+}
+
+// runWSLib: the follower is the client library's own LogClient (what `process-compose process
+// logs -f` uses). It dials through gorilla's default dialer, whose network dial is pointed at a
+// fresh simulated connection served by the real gin engine.
+func (rc *runCtx) runWSLib(f *WSFollower, capacity int) {
+	websocket.DefaultDialer.Proxy = nil
+	websocket.DefaultDialer.NetDialContext = func(ctx context.Context, _, _ string) (net.Conn, error) {
+		cl, sv := simnet.Pipe(capacity)
+		simsync.GoNamed("ws-server:lib", func() {
+			br := bufio.NewReader(sv)
+			req, err := http.ReadRequest(br)
+			if err != nil {
+				simlog.Add(simlog.Event{Kind: "ws.srv.err", Subj: "lib", A: err.Error()})
+				return
+			}
+			w := &hijackWriter{conn: sv, brw: bufio.NewReadWriter(br, bufio.NewWriter(sv)), header: http.Header{}}
+			rc.eng.ServeHTTP(w, req)
+			simlog.Add(simlog.Event{Kind: "ws.srv.ret", Subj: "lib", N: w.status})
+		})
+		return cl, nil
+	}
+	simlog.Add(simlog.Event{Kind: "ws.dial", Subj: f.Name, A: f.Proc, N: f.Offset})
+	lc := client.NewLogClient("sim", "")
+	n := 0
+	opened := false
+	_, err := lc.ReadProcessLogs(f.Proc, f.Offset, true, func(msg api.LogMessage) {
+		if !opened {
+			opened = true
+			simlog.Add(simlog.Event{Kind: "ws.open", Subj: f.Name})
+		}
+		simlog.Add(simlog.Event{Kind: "ws.line", Subj: f.Name, A: msg.Message, B: msg.ProcessName, N: n})
+		n++
+	})
+	if err != nil {
+		simlog.Add(simlog.Event{Kind: "ws.dial.err", Subj: f.Name, A: errStr(err)})
+		return
+	}
+	if !opened {
+		opened = true
+		simlog.Add(simlog.Event{Kind: "ws.open", Subj: f.Name})
 	}
 }
